@@ -176,6 +176,11 @@ func execLocal(op string) (res string) {
 			return "bad-op"
 		}
 		return execNegos(w[1], atoi(w[2]), w[3:])
+	case "negom":
+		if len(w) < 4 {
+			return "bad-op"
+		}
+		return execNegom(w[1], atoi(w[2]), atoi(w[3]), w[4:])
 	}
 	return "bad-op"
 }
@@ -901,7 +906,13 @@ func execNegos(codec string, numConns int, steps []string) string {
 		deadline := time.Now().Add(watchdog)
 		for {
 			conns := gocql.VerifC18eSessionConns(sess, true)
-			if len(conns) == numConns && len(node.livePeers(conns)) == numConns {
+			open := true
+			for _, c := range conns {
+				if c.Closed() { // lost, not yet removed by the pool, while its replacement is being established
+					open = false
+				}
+			}
+			if open && len(conns) == numConns && len(node.livePeers(conns)) == numConns {
 				return conns, true
 			}
 			if time.Now().After(deadline) {
